@@ -40,11 +40,13 @@ def run(prog, res):
   for q in FUNCS:
     fn = prog.function(q)
     c, u = api.check_calls(prog, res, fn, roots=('np',))
+    api.check_dtype_args(prog, res, fn)
     total += c
     unres += u
   res.extra['numpy_calls_checked'] = total
   res.extra['numpy_calls_without_introspectable_signature'] = unres
   res.floor('V5', 20)
+  res.floor('V5t', 2)
   ck = prog.function('premade_lib.compute_keypoints')
   _clip_polarity(prog, res, ck)
   _lockstep(prog, res, ck)
